@@ -102,24 +102,37 @@ fn act(out: &mut Out, kp: f32, off: f32, inv: bool, ins: &[Option<f32>]) {
 }
 
 fn rand_segment(rng: &mut Rng, scale: f32) -> ActorSegment {
-    let mut s = ActorSegment::new(Vector3::new(rand_f32(rng, -scale, scale), rand_f32(rng, -scale, scale), rand_f32(rng, -scale, scale)));
+    rand_segment_m(rng, scale).0
+}
+
+/// A segment and ITS TRANSFORM WRITTEN OUT INDEPENDENTLY (translation x rotation, built with nalgebra from the same location and
+/// Euler angles - not read back from the code under test): "the segment's transform" of the property.
+fn rand_segment_m(rng: &mut Rng, scale: f32) -> (ActorSegment, nalgebra::Matrix4<f32>) {
+    let loc = Vector3::new(rand_f32(rng, -scale, scale), rand_f32(rng, -scale, scale), rand_f32(rng, -scale, scale));
+    let mut s = ActorSegment::new(loc);
+    let mut m = nalgebra::Translation3::from(loc).to_homogeneous();
     if rng.chance(3, 4) {
-        s.set_rotation(Rotation3::from_euler_angles(rand_f32(rng, -3.0, 3.0), rand_f32(rng, -1.4, 1.4), rand_f32(rng, -3.0, 3.0)));
+        let r = Rotation3::from_euler_angles(rand_f32(rng, -3.0, 3.0), rand_f32(rng, -1.4, 1.4), rand_f32(rng, -3.0, 3.0));
+        s.set_rotation(r);
+        m = m * r.to_homogeneous();
     }
-    s
+    (s, m)
 }
 
 fn world(out: &mut Out, rng: &mut Rng, nseg: usize) {
     // ASCII and multi-byte names (the wire format counts BYTES)
     let names = ["frame", "boom", "arm", "attachment", "boom", "flèche", "底盘"];
     let mut segs: Vec<(String, ActorSegment)> = vec![];
+    let mut mats: Vec<nalgebra::Matrix4<f32>> = vec![];
     let scale = *rng.pick(&[1.0f32, 10.0, 1000.0]);
     for _ in 0..nseg {
         // duplicate names on purpose sometimes: the first match ends the chain
         let pool = if rng.chance(1, 3) { 7 } else { 4 };
         let n = names[rng.below(pool) as usize].to_string();
         let n = if rng.chance(1, 8) { format!("{}é", n) } else { n };
-        segs.push((n, rand_segment(rng, scale)));
+        let (seg, m) = rand_segment_m(rng, scale);
+        segs.push((n, seg));
+        mats.push(m);
     }
     let mut bld = ActorBuilder::new(*rng.pick(&["machine", "", "graafmachine-é", "掘"]));
     for (n, s) in &segs {
@@ -130,8 +143,8 @@ fn world(out: &mut Out, rng: &mut Rng, nseg: usize) {
     let p = actor.world_location(&query);
     let stok: Vec<String> = segs
         .iter()
-        .map(|(n, s)| {
-            let m = s.transformation();
+        .zip(mats.iter())
+        .map(|((n, _s), m)| {
             let w: Vec<String> = (0..4).flat_map(|i| (0..4).map(move |j| (i, j))).map(|(i, j)| b(m[(i, j)])).collect();
             format!("{}:{}", n, w.join(","))
         })
